@@ -18,6 +18,7 @@ def run(rep):
     rep.guard(h5, rep, w)
     rep.guard(h6, rep, w)
     rep.guard(h7, rep, w)
+    rep.guard(h9, rep, w)
     import c02
     rep.guard(c02.p8, rep, w)     # the tuple lock shared by Display and has_hash: left set, an unhashable tuple is accepted as a key (and panics in Hash)
     import c04
@@ -268,3 +269,40 @@ def h7(rep, w):
                          'an entry whose key / value is held only by the map dangles after the next collection')
     if m < 2:
         raise Broken('C12', 'floor', 'ObjHashMap key/value edges audited: %d' % m)
+
+
+def h9(rep, w, prop='C12'):
+    """keys(), values(), items() (and every other built-in that answers with a new collection) hand the program a collection it
+    owns alone: the Vec / Tuple / HashMap value a native builds wraps an object allocated in that very call. A collection kept in a
+    field and handed out again ("cached key list") is shared with the next caller: what one caller does to its list shows up in
+    the answer the next caller gets."""
+    r = rep.rule('H9', 'a collection value built by a native wraps an object allocated in the same call (no remembered collection is handed out)', floor=5)
+    import c01
+    mg = c01.may_gc(w)
+    nats = c02.natives(w)
+    kinds = ('ObjVec', 'ObjHashMap', 'ObjTuple')
+    for np_ in sorted(nats):
+        f = w.fns[np_]
+        if not f.file.endswith('core.rs'):
+            continue
+        org = None
+        for bi in f.normal_blocks():
+            for s_ in f.blocks[bi]['s']:
+                rr = s_.get('r', {})
+                if rr.get('rv') != 'agg' or rr.get('adt') != VAL or rr.get('v') not in kinds or not rr.get('ops'):
+                    continue
+                if org is None:
+                    org = origins(f)
+                pl = op_place(rr['ops'][0])
+                roots = org.get(pl['l'], ()) if pl else ()
+                stale = []
+                for q in roots:
+                    if q[0][0] == 'call':
+                        ct = f.blocks[q[0][1]]['t']
+                        dt = f.crate.ty(f.local_ty(ct['dst']['l']))
+                        if q[0][2] in mg and dt['k'] == 'adt' and dt['n'].rsplit('::', 1)[-1] in ('Root', 'UniqueRoot'):
+                            continue
+                    stale.append([x for x in q[1:] if not x.startswith(('@', '#', '*'))][-1:] or [str(q[0])])
+                r.check(bool(roots) and not stale, '%s builds a %s from a fresh allocation' % (np_.rsplit('::', 1)[-1], rr['v']),
+                        '%s answers with a %s that was not allocated in this call (it comes from %s): every caller gets the same object, so a list one caller edits '
+                        'is the list the next caller receives' % (np_, rr['v'], stale[:2]), f.loc(s_.get('sp')))
